@@ -284,7 +284,8 @@ AMP = ["https://www-lemonde-fr.cdn.ampproject.org/c/s/www.lemonde.fr/x.html", "h
        "https://a.cdn.ampproject.org/c/s/b.org/?url=https%3A%2F%2Fc.net%2Fz", "https://a.cdn.ampproject.org/c/s/a.cdn.ampproject.org/c/s/b.org/x", "https://A.CDN.AMPPROJECT.ORG/C/S/b.org/x",
        "https://www.youtube.com/redirect?q=b.org%2Fx", "https://www.youtube.com/redirect?q=https%3A%2F%2Fb.org%2Fx&v=1", "http://google.com/url?q=https%3A%2F%2Fb.org", "http://a.com/?q=https%3A%2F%2Fb.org",
        "http://a.com/redirect/x?q=/y", "http://a.com/?u=//&u=/x", "http://a&u=/x", "http://a.com/p?u=%2Fp%3Fu%3D%252Fp", "", " ", "u=", "=", "?u=/", "http://a.com/?u=/?u=/?u=/", "/?u=/x", "http://bad]host/?next=/foo", "http://[::1/?u=/x&url=%2Fy", "a.fr/login?next=/home", "a.fr?u=/p", "user:pw@a.fr/x?u=/p&b=1", "//a.fr/?u=/p",
-       "https://t.co/r?url=http%3A%2F%2Fcarrier.com%26next%3D%2Fhome", "HTTP://carrier.com&next=/home"]
+       "https://t.co/r?url=http%3A%2F%2Fcarrier.com%26next%3D%2Fhome", "HTTP://carrier.com&next=/home", "x.com/?Q=http://y.com/a", "http://www.google.com/URL?Q=http%3A%2F%2Fy.com",
+       "https://a.cdn.ampproject.org:443/c/s/b.org/x", "cdn.ampproject.org:8443/v/s/b.org/"]
 
 
 def run(ctx):
